@@ -6,6 +6,7 @@ persistence modules, this process's CPU time, address space), never on a wall
 clock.
 """
 
+import atexit
 import io
 import os
 import shutil
@@ -20,7 +21,7 @@ NEEDS_DEPS = ["numpy"]
 RULE = ("a case is one valid joblib file (object from the C03 generator, sometimes with numpy arrays, any compressor, "
         "protocol 2-5) x its damaged variants: every strict prefix for files <= 4 KiB (exhaustive), boundary-biased "
         "prefixes otherwise (0, 1, header, +-1 around 8192*k, last 9 bytes), zlib / gzip files built so that their length modulo 8192 is 0, 1..9, 12, 8190, 8191, loads through a raw stream delivering at most 1 / 13 / 4096 / 8191 bytes per read, and suffixes {1 byte, 4 junk bytes, 8 KiB "
-        "junk, a second copy of the same stream, a different valid stream}; plus Memory entries (called directly or through call_and_shelve(...).get()) whose output.pkl or metadata.json is "
+        "junk, a second copy of the same stream, a different valid stream}, each damaged file also loaded from a path on disk with mmap_mode None / 'r' / 'c' / 'r+' (always for uncompressed files, a third of the others); plus Memory entries (called directly or through call_and_shelve(...).get()) whose output.pkl or metadata.json is "
         "damaged the same ways; distinct_nontrivial counts distinct (file digest, damage) loads")
 ASSUMPTIONS = [
     "call_and_shelve(...).get() on an entry whose output.pkl is damaged may raise (a reference cannot recompute) but must not return another value; with a damaged metadata.json it must still return the value",
@@ -31,8 +32,8 @@ ASSUMPTIONS = [
     "warnings are allowed; only exceptions and values are judged",
 ]
 SHARDS = {"quick": 12, "thorough": 14}
-FLOORS = {"quick": {"aligned_files": 30, "short_read_loads": 1000, "damaged_loads": 15000, "suffix_loads": 1000, "memory_damaged_calls": 150, "files": 150},
-          "thorough": {"aligned_files": 60, "short_read_loads": 20000, "damaged_loads": 300000, "suffix_loads": 20000, "memory_damaged_calls": 3000, "files": 3000}}
+FLOORS = {"quick": {"aligned_files": 30, "short_read_loads": 1000, "path_loads_with_mmap_mode": 3000, "damaged_loads": 15000, "suffix_loads": 1000, "memory_damaged_calls": 150, "files": 150},
+          "thorough": {"aligned_files": 60, "short_read_loads": 20000, "path_loads_with_mmap_mode": 60000, "damaged_loads": 300000, "suffix_loads": 20000, "memory_damaged_calls": 3000, "files": 3000}}
 EXHAUSTIVE = {"quick": False, "thorough": False}
 
 _B = {}
@@ -99,15 +100,25 @@ def gen_file(rng):
     return obj, bio.getvalue(), dict(object=label, compress=compress, protocol=protocol)
 
 
-def guarded_load(raw, cpu_s, desc=None, short=None):
-    """('ok', obj) | ('exc', text) | ('exhausted', text)"""
+def guarded_load(raw, cpu_s, desc=None, short=None, via=None):
+    """('ok', obj) | ('exc', text) | ('exhausted', text); via = ('path', mmap_mode) loads the bytes from a file on disk"""
     import joblib
     lb, cpu = _B["lb"], _B["cpu"]
+    if via is not None:
+        if "dir" not in _B:
+            _B["dir"] = harness.mkscratch("vjl-c14f-")
+            atexit.register(shutil.rmtree, _B["dir"], True)
+        _B["n"] = _B.get("n", 0) + 1
+        fname = os.path.join(_B["dir"], f"f{_B['n'] % 8}.pkl")   # a few names in turn: an earlier result may still map its file
+        with open(fname, "wb") as fh:
+            fh.write(raw)
     lb.arm(20000 + 200 * len(raw) * (1 if short is None else max(1, 64 // short)))
     cpu.arm(cpu_s)
     try:
         with warnings.catch_warnings():
             warnings.simplefilter("ignore")
+            if via is not None:
+                return "ok", joblib.load(fname, mmap_mode=via[1])
             return "ok", joblib.load(io.BytesIO(raw) if short is None else ShortReader(raw, short))
     except MemoryError as e:
         return "exhausted", f"MemoryError under a 2 GiB cap: {e}"
@@ -120,6 +131,18 @@ def guarded_load(raw, cpu_s, desc=None, short=None):
     finally:
         cpu.disarm()
         lb.disarm()
+
+
+def demap(x):
+    """a load with a memory-map mode hands arrays back as np.memmap: the same values count as the same object"""
+    import numpy as np
+    if isinstance(x, np.memmap):
+        return np.array(x)
+    if type(x) is list:
+        return [demap(e) for e in x]
+    if type(x) is dict and any(isinstance(v, np.memmap) for v in x.values()):
+        return {k: demap(v) for k, v in x.items()}
+    return x
 
 
 def method_of(raw):
@@ -223,11 +246,16 @@ def run_case(case, ctx):
         cuts = sorted(c for c in cuts if 0 <= c < n)
     reported = set()
 
-    def judge(kind, damage, data, short=None):
+    def judge(kind, damage, data, short=None, via=None):
         ctx.evaluated()
-        st, res = guarded_load(data, cpu_s, short=short)
+        st, res = guarded_load(data, cpu_s, short=short, via=via)
         if short is not None:
             ctx.count("short_read_loads")
+        if via is not None:
+            ctx.count("path_loads")
+            if via[1]:
+                ctx.count("path_loads_with_mmap_mode")
+            kind = f"{kind}-path-mmap_mode={via[1]}"
         ctx.count("damaged_loads")
         ctx.sig((harness.h(raw.hex()[:4000] + str(n), 10), kind, damage))
         key = None
@@ -235,7 +263,7 @@ def run_case(case, ctx):
             key = f"nontermination:{meth}+{kind}"
             what = f"load of a {meth} file ({n} bytes, {desc['object'][:80]}) {kind} {damage}: {res}"
         elif st == "ok":
-            diff = gen_obj.iso(obj, res)
+            diff = gen_obj.iso(obj, demap(res) if via is not None and via[1] else res)
             ctx.count("damaged_loads_returning_original")
             if diff:
                 key = f"wrong-object:{meth}+{kind}"
@@ -247,13 +275,26 @@ def run_case(case, ctx):
             reported.add(key)
             ctx.violation(key, what, dict(desc, kind=kind, damage=damage))
 
+    # the same damage read from a file on disk, with and without a memory-map mode (always for uncompressed files, where the
+    # mode changes how the file is read; a third of the others)
+    p_path = 1.0 if meth == "raw" else 0.34
+
+    def via():
+        return ("path", rng.choice([None, "r", "r", "c", "r+"])) if rng.random() < p_path else None
+
     for c in cuts:
         judge("truncated", c, raw[:c])
+        v = via()
+        if v:
+            judge("truncated", c, raw[:c], via=v)
     sufs = {"1-byte": b"\x00", "4-junk": b"junk", "8k-junk": rng.randbytes(8192), "same-stream-again": raw, "other-valid-stream": other,
             "1-byte-ff": b"\xff"}
     for name, suf in sufs.items():
         judge("extended", name, raw + suf)
         ctx.count("suffix_loads")
+        v = via()
+        if v:
+            judge("extended", name, raw + suf, via=v)
     # the same through a stream that delivers at most k bytes per read (legal for a raw stream)
     if meth != "raw" or rng.random() < 0.3:
         for k in ([1, 13, 8191] if n <= 30000 else [4096, 8191]):
@@ -273,7 +314,8 @@ def run_memory(case, ctx):
         compress = rng.choice([False, True, 1, 9])
         with warnings.catch_warnings():
             warnings.simplefilter("ignore")
-            mem = Memory(d, verbose=0, compress=compress)
+            mmap_mode = rng.choice([None, None, "r", "c"])
+            mem = Memory(d, verbose=0, compress=compress, mmap_mode=mmap_mode)
             f = mem.cache(cached_fn)
         x, n = rng.randrange(100), rng.choice([0, 10, 5000, 20000])
         want = cached_fn(x, n)
@@ -315,7 +357,7 @@ def run_memory(case, ctx):
             if kind.startswith("meta-"):
                 ctx.count("memory_damaged_metadata_calls")
             label = dmg if kind.endswith("truncated") else f"+{len(dmg)}B"
-            ctx.sig(("memory", compress, n, kind, label))
+            ctx.sig(("memory", compress, mmap_mode, n, kind, label))
             if err and via_shelve and not kind.startswith("meta-") and not err.startswith(("StepBudget", "CpuBudget", "MemoryError")):
                 # a reference cannot recompute: reading a damaged result through it may raise (never return something else)
                 ctx.count("shelved_reference_to_damaged_result_raised")
@@ -325,10 +367,10 @@ def run_memory(case, ctx):
                 exhausted = err.startswith(("StepBudget", "CpuBudget", "MemoryError"))
                 ctx.violation(("nontermination:" if exhausted else "raises:") + f"memory+{kind}",
                               f"{'call_and_shelve(...).get()' if via_shelve else 'cached call'} on an entry whose {'metadata.json' if kind.startswith('meta-') else 'output.pkl'} is {kind} ({label}; compress={compress}, {L} bytes) -> {err}",
-                              dict(compress=compress, kind=kind, damage=label, n=n))
+                              dict(compress=compress, mmap_mode=mmap_mode, kind=kind, damage=label, n=n))
                 break
             if got != want:
-                ctx.violation(f"wrong-value:memory+{kind}", f"cached call on damaged entry returned {str(got)[:80]}", dict(compress=compress, kind=kind, damage=label))
+                ctx.violation(f"wrong-value:memory+{kind}", f"cached call on damaged entry returned {str(got)[:80]}", dict(compress=compress, mmap_mode=mmap_mode, kind=kind, damage=label))
                 break
             ctx.count("memory_recomputed" if EXEC else "memory_served_original")
             # restore a valid entry for the next damage
